@@ -25,5 +25,8 @@ def run(ctx):
         guards.g8_equality(ctx, cfg, prog)
         npred = formulas.rule_tower_predicates(ctx, cfg, prog)
         ctx.floor('R-PRED tower predicates[%s]' % cfg, npred, 6)
+        nd = guards.rule_defout(ctx, cfg, prog, functions=guards.curve_result_methods(prog), rule='R-DEFOUT/curve',
+                                what='%s is an out-of-place operation but there is a path to its end on which %s is never written (the caller keeps whatever the result object held before; `%s`)')
+        ctx.floor('R-DEFOUT/curve out-of-place point operations[%s]' % cfg, nd, 12)
         m = formulas.rule_curve(ctx, cfg, prog)
         ctx.floor('R-POLY curve formulas[%s]' % cfg, m, 12)
